@@ -186,6 +186,11 @@ def check(facts):
                         continue
                     if src[0] == "outcome" and src[1] in DECODE:
                         continue
+                    # `next(..).is_some_and(|c2| fold_equals(c1, c2))`: decoded element present *and* folding equal
+                    if src[0] == "call" and src[1].split("::")[-1] in ("is_some_and", "is_none_or", "map_or") and any(
+                            (tt.get("callee") or "") in FOLDEQ for cn in facts.body_names() if cn.startswith(fn + "::{closure")
+                            for _, tt in facts.body(cn).iter_calls()):
+                        continue
                     bad.append((b.blocks[s]["t"].get("line"), src))
             if not ctrl:
                 r.fail(key, "`return false` (line %s) is unconditional" % hit[0]["line"], facts.loc(fn, hit[0]["line"]))
